@@ -245,8 +245,8 @@ fn invocation(rng: &mut Rng, avoid_own_names: bool) -> String {
     let short = n_args_mode == 0;
     let line = match rng.below(21) {
         20 => {
-            // ten or more arguments: argument::1 and argument::10 share a prefix
-            let n = 10 + rng.usize(3);
+            // ten or more arguments: argument::1 and argument::10 share a prefix; sometimes more than 16
+            let n = if rng.chance(1, 3) { 17 + rng.usize(8) } else { 10 + rng.usize(3) };
             let cmd = *rng.pick(&["concat", "unset", "join_path", "array_concat"]);
             let args: Vec<String> = (0..n)
                 .map(|_| match cmd {
@@ -335,7 +335,16 @@ fn gen_case(rng: &mut Rng, avoid_scope_names: bool) -> Case {
     // one run in twenty-five: a caller with more than 64 variables
     let n_vars = if rng.chance(1, 25) { 65 + rng.usize(20) } else { 10 + rng.usize(11) };
     for i in 0..n_vars {
-        let mut name = if i < 4 { format!("v{}", i) } else if rng.chance(1, 4) { rng.pick(&VARNAMES).to_string() } else { format!("w{}", i) };
+        let mut name = if i < 4 {
+            format!("v{}", i)
+        } else if rng.chance(1, 4) {
+            rng.pick(&VARNAMES).to_string()
+        } else if rng.chance(1, 5) {
+            // a multi-byte character at some byte offset between 2 and 34 (code that slices names at a fixed offset)
+            format!("w{}{}\u{e9}{}", i % 10, "_".repeat(rng.usize(32)), "t".repeat(rng.usize(4)))
+        } else {
+            format!("w{}", i)
+        };
         if avoid_scope_names && under_some_own_prefix(&name) {
             // known finding: a caller variable under a command's own scope prefix is wiped by that command
             name = format!("w{}", i);
